@@ -245,6 +245,9 @@ class kFlowDecomp(pathmodel.AbstractPathModelDAG):
             if any(not (weight >= 0) for weight in self.solution_weights_superset):
                 utils.logger.error(f"{__name__}: solution_weights_superset must contain only non-negative values, not {self.solution_weights_superset}")
                 raise ValueError(f"solution_weights_superset must contain only non-negative values, not {self.solution_weights_superset}")
+            # (a positive weight up to 1e-9 - such as the 3e-14 a float model publishes for an unused path - is below what the solver keeps as a
+            # matrix coefficient: it refuses the row. Such a weight stands for 0)
+            self.solution_weights_superset = [weight if weight > 1e-9 else 0 for weight in self.solution_weights_superset]
             self.k = len(self.solution_weights_superset)
             # The unused weights of the superset give empty paths, which the caller did not necessarily ask for
             self._empty_paths_requested = self.optimization_options.get("allow_empty_paths", False)
